@@ -61,7 +61,7 @@ theorem StableG.ofRows (R : Node → Prop) (g : Node → Prop)
     (hbump : ∀ (n : Node), R n → R { n with deferCount := n.deferCount + 1 })
     (hhold : ∀ (n : Node), g n → R n → R { n with holding := n.holding + 1 })
     (hrel : ∀ (n : Node), R n → R { n with holding := n.holding - 1 })
-    (hrec : ∀ (n : Node) (need : Need) (shell : Bool), R n → R { n with need := need, shell := shell, holding := 0 })
+    (hrec : ∀ (n : Node) (need : Need) (shell : Bool), R n → R { n with need := need, shell := shell })
     (hfresh : ∀ (k : Key) (c : Option Key) (d : Bool), R { key := k, creator := c, detached := d }) :
     StableG (RowGuard g) (Rows R) where
   cache s p f hf hp := rows_modifyWhere s p f (fun n _ _ hn => hcache f hf n hn) hp
@@ -400,7 +400,7 @@ theorem stable_stepRowsOK : StableG HoldOnRunning StepRowsOK := by
     refine ⟨hn.1, fun h => hn.2 ?_⟩
     have h' : 0 < n.holding - 1 := h
     omega
-  · intro n need shell hn; exact ⟨hn.1, (fun h => absurd h (Nat.lt_irrefl 0))⟩
+  · intro n need shell hn; exact ⟨hn.1, hn.2⟩
   · intro k c d; exact ⟨(fun h => by cases h), (fun h => absurd h (Nat.lt_irrefl 0))⟩
 
 theorem init_stepRowsOK : StepRowsOK KState.init := by
